@@ -319,7 +319,7 @@ def C05(tier, seed):
     m_langid(c, binp, tier, light=True)
     m_subtags(c, binp, tier, light=True)
     m_parts(c, binp, tier)
-    m_object(c, binp, tier, edges=True, hist=True, full=True, parts=("T", "X", "Id"))
+    m_object(c, binp, tier, edges=True, hist=True, full=True, parts=("U", "T", "X", "Id"))
     traces(c, binp, "hist", tier, quick_n=2000)
     traces(c, binp, "parse", tier, quick_n=1500)
     return c.finish(rule="every reached value (parsed, from_parts, after every mutation edge/history) is printed and re-parsed by the real code (Locale, ExtensionsMap, LanguageIdentifier, the four subtags) and must come back equal; on the spec, ParseLoc(SerLoc(v)) = v is an invariant of every model and 'reparse' is a no-op action in every reachable state",
